@@ -424,7 +424,7 @@ fn cmd_check_inner(m: &HashMap<String, String>) -> i32 {
             J::obj(vec![
                 ("real", J::Arr(vec![
                     J::s("vek (path dependency on /repo, rebuilt from the working tree): all 13 vector types incl. their 13 IntoIter types (Iterator, DoubleEndedIterator, ExactSizeIterator, Debug, Hash, PartialEq, Drop, and whatever of Clone/PartialOrd/AsRef/AsMut/Borrow/Deref/Default they implement), From<[T;N]>, From<tuple>, new, into_array, into_tuple, FromIterator, from_slice, Default, Clone (clone and clone_from), Debug/Display/Hash/PartialEq, map/map2/map3/zip/reduce, the kind and size conversions between the vector types that have no bound on T (From<other kind>, truncating From<larger>, From<(smaller, scalar)>, Vec4 <-> Quaternion), swizzles (yx, zyx, zyxw, xy, xyz, rgb), with_x..w, shuffled_argb/bgra/bgr, Vec4::interleave_*/shuffle_lo_hi_0101/shuffle_hi_lo_2323, as_slice/as_mut_slice/AsRef/AsMut/Borrow/BorrowMut/Deref/DerefMut/&V and &mut V iteration"),
-                    J::s("vek row_major/column_major Mat2/3/4: new, {from,into}_{row,col}_array(s), as_(mut_){row,col}_slice and _ptr, Index/IndexMut, transposed/transpose, From<other layout>, Mat3::from(Mat4) / Mat2::from(Mat4) / Mat2::from(Mat3), map_rows/map_cols/map, Clone (clone and clone_from), Debug/Display/Hash/PartialEq, public rows/cols"),
+                    J::s("vek row_major/column_major Mat2/3/4: new, {from,into}_{row,col}_array(s), as_(mut_){row,col}_slice and _ptr, Index/IndexMut, transposed/transpose, From<other layout>, Mat3::from(Mat4) / Mat2::from(Mat4) / Mat2::from(Mat3), diagonal(), map_rows/map_cols/map/map2, Clone (clone and clone_from), Debug/Display/Hash/PartialEq, public rows/cols"),
                     J::s("std: the provided Iterator/DoubleEndedIterator adaptors driven over the real iterator (find, position, try_fold, step_by, zip, peekable, collect, ...), unwinding (real panics, catch_unwind), mem::swap / mem::forget"),
                 ])),
                 ("stub", J::Arr(vec![
